@@ -1,7 +1,7 @@
 # /verif top-level: `make setup` builds every Coq theory from files on disk (offline, full .vo build).
 PY=/venv/bin/python
 setup:
-	$(PY) -c "import sys; sys.path.insert(0,'/verif/harness'); import common; sys.exit(common.build_all())"
+	$(PY) -c "import sys; sys.path.insert(0,'$(CURDIR)/harness'); import common; sys.exit(common.build_all())"
 clean:
 	find coq -name '*.vo' -o -name '*.vok' -o -name '*.vos' -o -name '*.glob' -o -name '.*.aux' | xargs rm -f
 	rm -rf coq/cases coq/gen
